@@ -14,6 +14,28 @@ func c04Leaf(r *core.Rng) *LeafDesc {
 	if r.Chance(1, 8) {
 		return &LeafDesc{Tag: "str", S: []string{"AND", "or", "List", "CONDITION", "basic", "NOT"}[r.Intn(6)]} // label-like strings as ordinary values
 	}
+	if r.Chance(1, 10) {
+		// "every other value passed through unchanged": values of unusual but legal types
+		switch r.Intn(9) {
+		case 0:
+			return &LeafDesc{Tag: "complex128", F: float64(r.Intn(9)), I: int64(r.Intn(9))}
+		case 1:
+			return &LeafDesc{Tag: "complex64", F: 1.5, I: int64(r.Intn(9))}
+		case 2:
+			return &LeafDesc{Tag: "uintptr", I: int64(r.Intn(1 << 20))}
+		case 3:
+			return &LeafDesc{Tag: "named-int", I: int64(r.Intn(100))}
+		case 4:
+			return &LeafDesc{Tag: "named-bool", B: r.Bool()}
+		case 5:
+			return &LeafDesc{Tag: "named-float", F: float64(r.Intn(100)) / 4}
+		case 6:
+			return &LeafDesc{Tag: "rune", I: int64('a' + r.Intn(26))}
+		case 7:
+			return &LeafDesc{Tag: "ptr-pair"}
+		}
+		return &LeafDesc{Tag: "struct-empty"}
+	}
 	return SimpleLeaf(r)
 }
 
